@@ -246,3 +246,106 @@ def is_wf_quoted(h):
 def fs_path(folder, path):
     """Storage path of a sanitised request path below collection-root."""
     return os.path.join(folder, "collection-root", *[p for p in path.strip("/").split("/") if p])
+
+
+# ------------------------------------------------------------------ monitors: what sits between client and Radicale
+MODES = ["none", "wsgi", "proxy-strip", "proxy-strip-xff", "proxy-full-xff", "config-full-xff"]
+HOSTNAME = "dav.example.org"
+
+
+class LeftMount(Exception):
+    """The URL does not lie below the mount prefix: the front would not pass it to Radicale."""
+
+
+def latin1(s):
+    try:
+        s.encode("latin-1")
+        return True
+    except UnicodeEncodeError:
+        return False
+
+
+class Front:
+    """A client-side view of one deployment: `send` takes the request target exactly as a client writes it on the
+    request line and passes it through the front (none / WSGI container / reverse proxy) to the real application."""
+
+    def __init__(self, srv, mode, prefix, login=None):
+        assert mode in MODES
+        self.srv, self.mode, self.prefix, self.login = srv, mode, prefix, login
+        self.log = []
+
+    def client_url(self, path):
+        """How a client spells the URL of a storage path it wants to create (its own percent-encoding)."""
+        return urllib.parse.quote(self.prefix + path, safe="/")
+
+    def send(self, method, target, headers=None, data=None):
+        import base64
+        headers = dict(headers or {})
+        headers.setdefault("Host", HOSTNAME)
+        if self.login:
+            headers["Authorization"] = "Basic " + base64.b64encode(self.login.encode("utf-8")).decode()
+        extra = {}
+        prefix, mode = self.prefix, self.mode
+
+        def header(name, value):
+            if latin1(value):
+                headers[name] = value
+            else:
+                extra["HTTP_" + name.upper().replace("-", "_")] = value
+        if mode in ("proxy-strip", "proxy-strip-xff") and prefix:
+            path, sep, query = target.partition("?")
+            dec = urllib.parse.unquote(path)
+            if not (dec == prefix or dec.startswith(prefix + "/")):
+                raise LeftMount(target)
+            target = urllib.parse.quote(dec[len(prefix):] or "/", safe="/") + sep + query
+        if mode.startswith("proxy") and prefix:
+            header("X-Script-Name", prefix)
+        if mode.endswith("-xff"):
+            headers["X-Forwarded-For"] = "10.1.2.3"
+        env = environ_from_request_line(target, method, headers)
+        if env is None:
+            self.log.append((method, target, "rejected by http.server"))
+            return 400, {}, b""
+        env.update(extra)
+        if mode == "wsgi" and prefix:
+            pi = env["PATH_INFO"]
+            if not (pi == prefix or pi.startswith(prefix + "/")):
+                raise LeftMount(target)
+            env["SCRIPT_NAME"] = prefix
+            env["PATH_INFO"] = pi[len(prefix):]
+        st, h, body = call_app(self.srv, env, data)
+        self.log.append((method, target, st))
+        return st, h, body
+
+
+PROPFIND_ALL = ('<?xml version="1.0"?><D:propfind xmlns:D="DAV:" xmlns:C="urn:ietf:params:xml:ns:caldav" '
+                'xmlns:CR="urn:ietf:params:xml:ns:carddav"><D:prop><D:getetag/><D:resourcetype/><D:principal-URL/>'
+                '<D:current-user-principal/><D:principal-collection-set/><C:calendar-home-set/><CR:addressbook-home-set/>'
+                '<C:calendar-user-address-set/><D:owner/></D:prop></D:propfind>')
+SYNC_BODY = ('<?xml version="1.0"?><D:sync-collection xmlns:D="DAV:"><D:sync-token/><D:sync-level>1</D:sync-level>'
+             '<D:prop><D:getetag/></D:prop></D:sync-collection>')
+QUERY_BODY = {
+    "C": ('<?xml version="1.0"?><C:calendar-query xmlns:D="DAV:" xmlns:C="urn:ietf:params:xml:ns:caldav"><D:prop><D:getetag/></D:prop>'
+          '<C:filter><C:comp-filter name="VCALENDAR"/></C:filter></C:calendar-query>'),
+    "CR": ('<?xml version="1.0"?><CR:addressbook-query xmlns:D="DAV:" xmlns:CR="urn:ietf:params:xml:ns:carddav"><D:prop><D:getetag/>'
+           '</D:prop></CR:addressbook-query>'),
+}
+
+
+def etags_of(body):
+    """[(href, etag or None, is_collection)] of a multistatus."""
+    from radicale import xmlutils
+    import defusedxml.ElementTree as DefusedET
+    xml = DefusedET.fromstring(body)
+    out = []
+    for response in xml.findall(xmlutils.make_clark("D:response")):
+        href = response.find(xmlutils.make_clark("D:href")).text or ""
+        etag = None
+        coll = False
+        for el in response.iter():
+            if el.tag == xmlutils.make_clark("D:getetag") and el.text:
+                etag = el.text
+            if el.tag == xmlutils.make_clark("D:collection"):
+                coll = True
+        out.append((href, etag, coll))
+    return out
